@@ -137,33 +137,56 @@ func builtinGlobalParseInt(call FunctionCall) Value {
 	return int64Value(value)
 }
 
-var (
-	parseFloatMatchBadSpecial = regexp.MustCompile(`[\+\-]?(?:[Ii]nf$|infinity)`)
-	parseFloatMatchValid      = regexp.MustCompile(`[0-9eE\+\-\.]|Infinity`)
-)
-
 func builtinGlobalParseFloat(call FunctionCall) Value {
-	// Caveat emptor: This implementation does NOT match the specification
-	input := strings.Trim(call.Argument(0).string(), builtinStringTrimWhitespace)
+	// ECMA-262 15.1.2.3: skip leading white space, then convert the longest prefix that is a
+	// StrDecimalLiteral; NaN if there is none.
+	input := strings.TrimLeft(call.Argument(0).string(), builtinStringTrimWhitespace)
 
-	if parseFloatMatchBadSpecial.MatchString(input) {
+	index := 0
+	if index < len(input) && (input[index] == '+' || input[index] == '-') {
+		index++
+	}
+	if strings.HasPrefix(input[index:], "Infinity") {
+		if input[0] == '-' {
+			return negativeInfinityValue()
+		}
+		return positiveInfinityValue()
+	}
+
+	digits := func() int {
+		start := index
+		for index < len(input) && '0' <= input[index] && input[index] <= '9' {
+			index++
+		}
+		return index - start
+	}
+	count := digits()
+	if index < len(input) && input[index] == '.' {
+		dot := index
+		index++
+		count += digits()
+		if count == 0 {
+			index = dot
+		}
+	}
+	if count == 0 {
 		return NaNValue()
 	}
-	value, err := strconv.ParseFloat(input, 64)
-	if err != nil {
-		for end := len(input); end > 0; end-- {
-			val := input[0:end]
-			if !parseFloatMatchValid.MatchString(val) {
-				return NaNValue()
-			}
-			value, err = strconv.ParseFloat(val, 64)
-			if err == nil {
-				break
-			}
+	if index < len(input) && (input[index] == 'e' || input[index] == 'E') {
+		// The exponent belongs to the literal only if it is complete.
+		exponent := index
+		index++
+		if index < len(input) && (input[index] == '+' || input[index] == '-') {
+			index++
 		}
-		if err != nil {
-			return NaNValue()
+		if digits() == 0 {
+			index = exponent
 		}
+	}
+
+	value, err := strconv.ParseFloat(input[:index], 64)
+	if err != nil && !errors.Is(err, strconv.ErrRange) {
+		return NaNValue()
 	}
 	return float64Value(value)
 }
